@@ -119,17 +119,22 @@ Fixpoint input_spans (x : node) : node :=
   | NOther c o => NOther c o
   end.
 
-(** What [Node::hash_deep] feeds (tree.rs:640-673, commit 25aa9f6): [hash_with_span] (content and
-    first span), then recursively every span index and every call's function index; with
-    [Some(asm)] (un.rs, under.rs) the same for the bodies of called functions ([deep]),
-    with [None] (zip.rs) not ([shallow]).  Not fed: the handle's id (name), sig field, origin.
+(** What [Node::hash_deep] feeds (tree.rs:643-675; commits 25aa9f6, 7da4086): [hash_with_span]
+    (content and first span), then recursively every span index and, for every call, the
+    function INDEX and the function ID (name); with [Some(asm)] (un.rs, under.rs) the same
+    for the bodies of called functions ([deep]), with [None] (zip.rs) not ([shallow]).
+    Not fed: the handle's sig field and origin.
+    Why the index is fed although the body is walked: a [Call] that survives in a cached
+    inverse or closure is EXECUTED THROUGH ITS INDEX ([asm.functions[f.index]],
+    assembly.rs:611-620, run.rs:604), so two inputs with the same callee body at different
+    indices have different cached values ([inv_key_without_index_refuted] in Proofs/Memo.v).
     (The walk visits a body once per function index; the model does not carry that guard:
     two calls with the same index in one assembly have the same body.) *)
 Fixpoint deep (x : node) : node :=
   match x with
   | NPrim p s => NPrim p s
   | NMod p args s => NMod p (map (fun a => (deep (fst a), snd a)) args) s
-  | NCall _ _ i h _ b s => NCall 0 0 i h 0 (deep b) s
+  | NCall id _ i h _ b s => NCall id 0 i h 0 (deep b) s
   | NGlobal i s => NGlobal i s
   | NPush v => NPush v
   | NRun ns => NRun (map deep ns)
@@ -139,10 +144,56 @@ Fixpoint shallow (x : node) : node :=
   match x with
   | NPrim p s => NPrim p s
   | NMod p args s => NMod p (map (fun a => (shallow (fst a), snd a)) args) s
-  | NCall _ _ i h _ _ s => NCall 0 0 i h 0 (NRun []) s
+  | NCall id _ i h _ _ s => NCall id 0 i h 0 (NRun []) s
   | NGlobal i s => NGlobal i s
   | NPush v => NPush v
   | NRun ns => NRun (map shallow ns)
+  | NOther c o => NOther c o
+  end.
+
+(** [hash_deep] between 25aa9f6 and 7da4086: the id was not fed *)
+Fixpoint deep_pre (x : node) : node :=
+  match x with
+  | NPrim p s => NPrim p s
+  | NMod p args s => NMod p (map (fun a => (deep_pre (fst a), snd a)) args) s
+  | NCall _ _ i h _ b s => NCall 0 0 i h 0 (deep_pre b) s
+  | NGlobal i s => NGlobal i s
+  | NPush v => NPush v
+  | NRun ns => NRun (map deep_pre ns)
+  | NOther c o => NOther c o
+  end.
+Fixpoint shallow_pre (x : node) : node :=
+  match x with
+  | NPrim p s => NPrim p s
+  | NMod p args s => NMod p (map (fun a => (shallow_pre (fst a), snd a)) args) s
+  | NCall _ _ i h _ _ s => NCall 0 0 i h 0 (NRun []) s
+  | NGlobal i s => NGlobal i s
+  | NPush v => NPush v
+  | NRun ns => NRun (map shallow_pre ns)
+  | NOther c o => NOther c o
+  end.
+
+(** a key that walks the body INSTEAD of feeding the index (what one might think is enough) *)
+Fixpoint deep_no_index (x : node) : node :=
+  match x with
+  | NPrim p s => NPrim p s
+  | NMod p args s => NMod p (map (fun a => (deep_no_index (fst a), snd a)) args) s
+  | NCall id _ _ h _ b s => NCall id 0 0 h 0 (deep_no_index b) s
+  | NGlobal i s => NGlobal i s
+  | NPush v => NPush v
+  | NRun ns => NRun (map deep_no_index ns)
+  | NOther c o => NOther c o
+  end.
+
+(** everything but the origins of the function handles (names included) *)
+Fixpoint no_origin (x : node) : node :=
+  match x with
+  | NPrim p s => NPrim p s
+  | NMod p args s => NMod p (map (fun a => (no_origin (fst a), snd a)) args) s
+  | NCall id fs i h _ b s => NCall id fs i h 0 (no_origin b) s
+  | NGlobal i s => NGlobal i s
+  | NPush v => NPush v
+  | NRun ns => NRun (map no_origin ns)
   | NOther c o => NOther c o
   end.
 
@@ -285,18 +336,31 @@ Record binding := { b_kind : N; b_external : bool }.   (* kind: 0 Const, 1 pure 
 Definition nth_binding (bs : list binding) (i : N) : option binding := nth_error bs (N.to_nat i).
 
 (** 1-3. un / anti / under inverse (un.rs:30-59, 93-111; under.rs:30-61).
-    key (since 25aa9f6): [hash_deep(Some(asm))] of each node of the slice; under adds
+    key (since 25aa9f6 / 7da4086): [hash_deep(Some(asm))] of each node of the slice; under adds
     (g_sig, inverse).  The cached value is a tree of nodes (or an error) carrying span
     indices copied from the input and from the inlined bodies, function handles kept as
-    they are, and in errors the names of the functions that could not be inverted
-    (invert/mod.rs:258-264 [InversionError::func]). *)
+    they are (executed later through their index), and in errors the names of the
+    functions that could not be inverted (invert/mod.rs:258-264 [InversionError::func]). *)
 Definition inv_input : Type := list node * (N * bool).      (* nodes, (g_sig, inverse) — (0,false) for un/anti *)
 Definition inv_key (x : inv_input) : list node * (N * bool) := (map deep (fst x), snd x).
 Definition inv_deps (x : inv_input) : list node * (N * bool) := x.
+(** the dependencies other than the origins of the handles: spans, indices, bodies, NAMES *)
+Definition inv_deps_named (x : inv_input) : list node * (N * bool) := (map no_origin (fst x), snd x).
 (** the dependencies other than the names/origins of the handles *)
 Definition inv_deps_no_names (x : inv_input) : list node * (N * bool) := (map no_names (fst x), snd x).
-(** a key that also feeds the handles' names and origins *)
+(** a key that also feeds the handles' origins *)
 Definition inv_key_fix (x : inv_input) : list node * (N * bool) := x.
+(** ... and one more thing the inversion reads: the "match a constant exactly" inverse takes
+    [asm.spans.len() - 1] as the span of its MatchPattern (un.rs:588-597 [MatchConst]); the
+    length of the spans table at the time of the inversion is not fed to the key *)
+Definition inv_input_l : Type := inv_input * N.
+Definition inv_key_l (x : inv_input_l) : list node * (N * bool) := inv_key (fst x).
+Definition inv_deps_l (x : inv_input_l) : (list node * (N * bool)) * N := (inv_deps_named (fst x), snd x).
+Definition inv_key_l_fix (x : inv_input_l) : (list node * (N * bool)) * N := (inv_key (fst x), snd x).
+(** the key between 25aa9f6 and 7da4086 (no names) *)
+Definition inv_key_pre_names (x : inv_input) : list node * (N * bool) := (map deep_pre (fst x), snd x).
+(** a key that hashes the callee's body instead of its index *)
+Definition inv_key_no_index (x : inv_input) : list node * (N * bool) := (map deep_no_index (fst x), snd x).
 
 (** the key before 25aa9f6: content hash and [Node::span()] of each node of the slice *)
 Definition inv_key_pre (x : inv_input) : list (node * option N) * (N * bool) :=
@@ -340,7 +404,10 @@ Definition pre_deps (x : pre_input) : node * list (option (N * bool)) :=
 Definition zip_key (x : node) : node := shallow x.
 Definition zip_deps (x : node) : node := no_bodies x.
 Definition zip_deps_no_names (x : node) : node := no_bodies (no_names x).
+Definition zip_deps_named (x : node) : node := no_bodies (no_origin x).
 Definition zip_key_fix (x : node) : node := no_bodies x.
+(** between 25aa9f6 and 7da4086 (no names) *)
+Definition zip_key_pre_names (x : node) : node := shallow_pre x.
 (** before 25aa9f6: the node by content hash *)
 Definition zip_key_pre (x : node) : node := erase x.
 
